@@ -356,6 +356,12 @@ Theorem sigma_clip_fixpoint : forall n sclip st,
   iter_sigma_clip sclip st = st -> iter_n n sclip st = st.
 Proof. exact iter_n_fixpoint. Qed.
 Print Assumptions sigma_clip_fixpoint.
+(* convergence: once nclip >= number of samples, further iterations change nothing *)
+Theorem sigma_clip_converges : forall sclip n st,
+  store_wf st -> (length (s_intens st) <= n)%nat ->
+  iter_sigma_clip sclip (iter_n n sclip st) = iter_n n sclip st.
+Proof. exact iter_n_converges. Qed.
+Print Assumptions sigma_clip_converges.
 Theorem sigma_clip_keeps_lockstep : forall n sclip st,
   store_wf st ->
   store_wf (iter_n n sclip st) /\ (length (s_intens (iter_n n sclip st)) <= length (s_intens st))%nat.
